@@ -290,7 +290,7 @@ FN[r'rcu_list::erase'] = dict(
     props='C05 C12', setup=ERASE_SETUP,
     requires=['vf_LST == self && iter->m_current == &vf_mid && g_victim == &vf_mid && ' + ERASE_FRESH + ' && !self->m_write_mutex.excl_me && self->m_write_mutex.shared_me == 0 && '
               'self->m_write_mutex.guards == 0 && vf_held == 0 && !vf_exc && (vf_mid.back.v == 0 || vf_mid.back.v == (void *)&vf_hn) && (vf_mid.next.v == 0 || vf_mid.next.v == (void *)&vf_tn) && ' + R3],
-    ensures=[('C12', ONE_CS, 'erase is one critical section of m_write_mutex, released on every exit'),
+    ensures=[('C05 C12', ONE_CS, 'erase - including the test-and-set of the deleted flag that makes a second erase a no-op - is one critical section of m_write_mutex, released on every exit'),
              ('C12', '(!vf_exc && !__CPROVER_old(vf_mid.deleted)) ==> (vf_mid.deleted && g_chain_stores == 1 && g_unlinked && '
                      '(__CPROVER_old(vf_mid.back.v) != 0 ? vf_hn.next.v == __CPROVER_old(vf_mid.next.v) : self->m_head.v == __CPROVER_old(vf_mid.next.v)) && '
                      '(__CPROVER_old(vf_mid.next.v) != 0 ? vf_tn.back.v == __CPROVER_old(vf_mid.back.v) : self->m_tail.v == __CPROVER_old(vf_mid.back.v)))',
